@@ -100,7 +100,18 @@ impl Context
                 use std::path;
 
                 let next_reference_id =
-                    Context::read_cached_next_reference_id(&loaded_config, config_dir);
+                    match Context::read_cached_next_reference_id(&loaded_config, config_dir)
+                    {
+                        Ok(id) => id,
+
+                        /* Check mode doesn't need the lock file. In edit mode, carrying on
+                         * without a lock file that exists but can't be read would mean
+                         * recalculating the next reference from the code, which may hand out
+                         * IDs that have been used before.
+                         */
+                        Err(_) if check_mode => None,
+                        Err(e) => return Err(e),
+                    };
 
                 let mut loaded_context = Self {
                     config: loaded_config,
@@ -149,21 +160,25 @@ impl Context
     ///
     /// # Returns
     ///
-    /// The cached next reference ID, if one exists.
-    fn read_cached_next_reference_id(config: &Config, directory_path: &str) -> Option<u32>
+    /// The cached next reference ID, if one exists and can be parsed; an error message if a lock
+    /// file is there but can't be read.
+    fn read_cached_next_reference_id(
+        config: &Config,
+        directory_path: &str,
+    ) -> Result<Option<u32>, String>
     {
         let cache_path = std::path::Path::new(directory_path).join(Context::CACHE_FILENAME);
 
-        if !config.use_cache || !cache_path.exists()
+        if !config.use_cache
         {
-            return None;
+            return Ok(None);
         }
 
-        if let Ok(cache_yaml) = std::fs::read_to_string(cache_path)
+        match std::fs::read_to_string(cache_path)
         {
-            match serde_yaml::from_str::<Cache>(cache_yaml.as_str())
+            Ok(cache_yaml) => match serde_yaml::from_str::<Cache>(cache_yaml.as_str())
             {
-                Ok(loaded_cache) => Some(loaded_cache.next_reference_id),
+                Ok(loaded_cache) => Ok(Some(loaded_cache.next_reference_id)),
                 Err(e) =>
                 {
                     log::warn!(
@@ -171,17 +186,25 @@ impl Context
                         Context::CACHE_FILENAME,
                         e
                     );
-                    None
+                    Ok(None)
                 },
-            }
-        }
-        else
-        {
-            log::warn!(
-                "[ref: 32] Failed to read lock file {}",
-                Context::CACHE_FILENAME
-            );
-            None
+            },
+
+            // There's no lock file (yet).
+            Err(e) if e.kind() == std::io::ErrorKind::NotFound => Ok(None),
+
+            Err(e) =>
+            {
+                log::warn!(
+                    "[ref: 32] Failed to read lock file {}",
+                    Context::CACHE_FILENAME
+                );
+                Err(format!(
+                    "Failed to read lock file {}: {}",
+                    Context::CACHE_FILENAME,
+                    e
+                ))
+            },
         }
     }
 
